@@ -15,8 +15,19 @@ from .. import common as cm
 
 PROP = 'C05'
 THEOREMS = [
+    'C05.wrap_reconstruct', 'C05.wrap_inside', 'C05.wrap_periodic_axes_fixed', 'C05.wrap_idem',
+    'C05.flip_same_points', 'C05.abcBox_spec', 'C05.normalize_lammps_normal', 'C05.normalize_gram',
+    'C05.gram_eq_rotation', 'C05.normalize_proper_rotation', 'C05.normalize_inside',
+    'C05.dist_depends_on_gram', 'C05.normalize_rel_mod_one', 'C05.normalize_image_distances',
+    'C05.normalize_distance_spectrum', 'C05.sqrt_args_closed_form', 'C05.isFloor_ratFloor', 'C05.sqrtOK_real',
 ]
-PARTIAL = {}
+PARTIAL = {
+    'input_left_as_it_was': 'a heap fact (aliasing/mutation), true by construction of the functional model and '
+                            'therefore not a theorem; checked on the implementation in every run by a bitwise '
+                            'snapshot of the input system and numpy.shares_memory on every per-atom array and the box',
+    'lengths_and_angles': 'stated as equality of the Gram matrix (squared lengths, dot products) and of the '
+                          'determinant; lengths and angles are sqrt/arccos of these (not formed in the model)',
+}
 RULE = ('wrap: cells = products of dyadic shears/permutations/diagonal powers of two whose numpy inverse is '
         'exact (grid regime: relative coordinates multiples of 1/8 incl. exactly on faces, up to 2^10 cells '
         'outside; flags, positions and unpadded boxes compared exactly) and rotated/left-handed/strongly tilted '
